@@ -630,6 +630,30 @@ theorem immWanted_faithful (ctx : ImmCtx) (v : Int) (hw : 1 ≤ ctx.width) (h : 
     rw [← this]
     exact Int.emod_eq_of_lt (by omega) (by omega)
 
+/-- what the assembler + CPU make of a constant depends on its text only through the integer read from it:
+any spelling of the same integer is used like the model's rendering -/
+theorem asmImm_spelling (ctx : ImmCtx) (t : ImmTy) (v : Int) (hr : InRange t v) (text : List Char)
+    (h : readImm text = some v) : asmImm ctx text = asmImm ctx (asm (.imm t v)) := by
+  simp only [asm, asmImm, readImm_asm t v hr, h]
+
+/-- **C05-(3), value preservation**: for a constant that is a number of the operation's width
+(`ImmRepresentable`) and satisfies the guard `ImmFits`, what the assembler + CPU use IS the constant given:
+the number itself when non-negative, its two's complement at the operation's width when negative.
+(`asmImm_value_partial` alone also holds where the value is NOT kept — see `asmImm_truncates`.) -/
+theorem asmImm_preserves (ctx : ImmCtx) (t : ImmTy) (v : Int) (hr : InRange t v) (hf : ImmFits ctx v)
+    (hw : 1 ≤ ctx.width) (hrep : ImmRepresentable ctx v) :
+    ∃ n, asmImm ctx (asm (.imm t v)) = some n ∧ (0 ≤ v → (n : Int) = v) ∧ (v < 0 → (n : Int) = v + 2 ^ ctx.width) :=
+  ⟨immWanted ctx v, asmImm_value_partial ctx t v hr hf, immWanted_faithful ctx v hw hrep⟩
+
+example : ∃ n, asmImm .sx64 (asm (.imm .i32 (-2))) = some n ∧ (n : Int) = -2 + 2 ^ 64 :=
+  let ⟨n, h1, _, h3⟩ := asmImm_preserves .sx64 .i32 (-2) (by decide) (by decide) (by decide) (by decide)
+  ⟨n, h1, h3 (by decide)⟩
+
+/-- without `ImmRepresentable` the low bits are kept and the value is lost: a 32-bit constant as the operand of
+an 8-bit operation (no imm8 form admits it: the constructors reject it — checked by the near-miss stream) -/
+theorem asmImm_truncates : asmImm (.op 8) (asm (.imm .u32 0x1ff)) = some 255 ∧ ¬ ImmRepresentable (.op 8) 0x1ff := by
+  refine ⟨by decide, by decide⟩
+
 /-- The guard is what separates right from wrong: in a sign-extending context a
 constant outside the signed 32-bit range is read as a DIFFERENT value. -/
 theorem asmImm_differs_without_guard (t : ImmTy) (v : Int) (hr : InRange t v)
